@@ -100,10 +100,10 @@ func c09GroupNIST(t *testing.T, unit string, g group.Group, c *wcurve.Curve) {
 			}})
 	}
 	r.RequireCounter("in:prefix", 255+3*256*2-20)
-	r.RequireCounter("in:flip", 4*8*(3*c.ByteLen+2)-16)
-	r.RequireCounter("in:alias", 12)
+	r.RequireCounter("in:flip", int64(4*8*(3*c.ByteLen+2)-16))
+	r.RequireCounter("in:alias", 6)
 	r.RequireCounter("in:field-overflow", 32+64)
-	r.RequireCounter("in:offcurve", 6+5)
+	r.RequireCounter("in:offcurve", 9)
 	r.RequireCounter("in:valid-lib", 21)
 	r.RequireCounter("accepted", 60)
 }
@@ -147,7 +147,7 @@ func TestVerifC09_group_ristretto255(t *testing.T) {
 		}})
 	r.RequireCounter("in:flip", 4*250)
 	r.RequireCounter("in:rfc-invalid", 25)
-	r.RequireCounter("in:field-overflow", 36)
+	r.RequireCounter("in:field-overflow", 30)
 	r.RequireCounter("in:negative", 10)
 	r.RequireCounter("in:valid-lib", 11)
 	r.RequireCounter("accepted", 40)
